@@ -493,7 +493,7 @@ def run(rep):
     real = list(FIXED_REAL) + vlib.load_corpus("C07")
     for kind in range(5):
         real += enum_real(kind, 2 if quick else 3)
-        real += [gen_real(r, kind) for _ in range(400 if quick else 12000)]
+        real += [gen_real(r, kind) for _ in range(400 if quick else 8000)]
     st_a = scripted_part(rep, runner, exe, scripted)
     st_b = real_part(rep, runner, exe, real)
     allc = scripted + real
